@@ -74,9 +74,9 @@ func genWarrior(r *Rng, idx int64, d asm.Dialect, m, maxLen int) ([]mars.Insn, i
 
 func runC09(c *Ctx) {
 	runPinned(c, "C09")
-	n := int64(12000)
+	n := int64(120000)
 	if c.Thorough() {
-		n = 1200000
+		n = 8000000
 	}
 	c.Cases(n, func(idx int64, r *Rng) {
 		d := asm.D94
